@@ -26,6 +26,7 @@ META = {
 }
 
 FULL = '{"A4", "A6", "A6z", "Abad", "N", "Nidn", "Nbad", "SP", "TAB", "HASH", "CMT", "CR"}'
+FULL13 = '{"A4", "A6", "A6z", "Abad", "N", "Nidn", "Nbad", "SP", "TAB", "HASH", "CMT", "CR", "INV"}'
 CLASSES = '{"cA", "cN", "cJ", "cS", "cH"}'
 LONG_Q = "{7, 8, 9, 10, 15, 16, 17, 31, 32, 33, 64, 65, 100}"
 LONG_T = "{6, 7, 8, 9, 10, 11, 12, 15, 16, 17, 18, 24, 31, 32, 33, 34, 48, 63, 64, 65, 66, 100, 127, 128, 129, 200}"
@@ -65,6 +66,10 @@ def run(ctx):
     # 1. MC: design lemmas on all strings (glued fields included).
     write_cfg(d / "HostsLineMC_run.cfg", "Spec", {"Alphabet": FULL, "MaxLen": 5 if q else 6}, invariants=LEMMAS)
     ctx.tlc(d, "HostsLine", "HostsLineMC_run.cfg", label="line-mc", timeout=1500)
+    if not q:
+        # the same lemmas with the invisible-prefix token INV in the alphabet
+        write_cfg(d / "HostsLineMC13_run.cfg", "Spec", {"Alphabet": FULL13, "MaxLen": 5}, invariants=LEMMAS)
+        ctx.tlc(d, "HostsLine", "HostsLineMC13_run.cfg", label="line-mc-inv", timeout=1500)
 
     # 2. G: full alphabet, then class alphabet for longer lines (appends to the same file).
     write_cfg(d / "HostsLineGenFull_run.cfg", "GSpec", {"Alphabet": FULL, "MaxLen": 5 if q else 6, "LongCounts": "{}"},
